@@ -232,6 +232,8 @@ def untilDesc : Option (NExpr τ) → List Int
   | some (.cond (.before t)) => 4 :: tArgs t
   | some (.cond (.flag f)) => [5, f, 1]
   | some (.cond (.inv (.flag f))) => [6, f, 1]
+  | some (.cond (.any [.flag f, .flag g])) => [7, f, g]
+  | some (.cond (.all [.flag f, .flag g])) => [8, f, g]
   | some (.cond _) => [9, 0, 1]
 
 def truthy (x : Option τ) : Bool :=
